@@ -7,7 +7,7 @@ import impl
 
 TABLES = []
 LAKE_TARGETS = ["Moclo.Props.C19"]
-THEOREMS = ["Moclo.C19." + t for t in ["evalPrefix_interchangeable", "substitute_modules", "substitute_any"]]
+THEOREMS = ["Moclo.C19." + t for t in ["evalPrefix_interchangeable", "substitute_modules", "substitute_any", "substitute_any_outcome"]]
 RULE = ("successful generated assemblies over every enzyme geometry: at every chain position the module is "
         "replaced by a fresh valid module with the same two overhangs and a target of another length (and another "
         "backbone, rotation, case); the new product must differ from the old one only in that module's segment. "
